@@ -701,10 +701,6 @@ func (lc *leaderController) list(ctx context.Context, request *proto.ListRequest
 				return
 			}
 
-			defer func() {
-				_ = it.Close()
-			}()
-
 			for ; it.Valid(); it.Next() {
 				if err = cb.OnNext(it.Key()); err != nil {
 					break
@@ -713,6 +709,9 @@ func (lc *leaderController) list(ctx context.Context, request *proto.ListRequest
 					break
 				}
 			}
+			// The iterator is released before the completion is signalled: whoever waits for
+			// the completion may close the database right after it
+			_ = it.Close()
 			cb.OnComplete(err)
 		},
 	)
@@ -758,10 +757,6 @@ func (lc *leaderController) RangeScan(ctx context.Context, request *proto.RangeS
 				return
 			}
 
-			defer func() {
-				_ = it.Close()
-			}()
-
 			var gr *proto.GetResponse
 			for ; it.Valid(); it.Next() {
 				if gr, err = it.Value(); err != nil {
@@ -774,6 +769,9 @@ func (lc *leaderController) RangeScan(ctx context.Context, request *proto.RangeS
 					break
 				}
 			}
+			// The iterator is released before the completion is signalled: whoever waits for
+			// the completion may close the database right after it
+			_ = it.Close()
 			cb.OnComplete(err)
 		},
 	)
